@@ -38,12 +38,12 @@ P = {
     "streams": [{
         "name": "tree", "pkg": "./internal/config/parser", "test": "TestVerifC20",
         "overlay": {"internal/config/parser/zz_verif_c20_test.go": "c20/c20_tree_test.go"},
-        "eval_module": "Run.Eval_C20", "check_term": "check false false",
-        "n_quick": 1200, "n_thorough": 30000, "findings": {3: "C20-F3", 4: "C20-F4"}, "shard": 100,
+        "eval_module": "Run.Eval_C20", "check_term": "check true false",  # fix3 = true since /repo 0f39207
+        "n_quick": 1000, "n_thorough": 30000, "findings": {4: "C20-F4"}, "shard": 64,
     }, {
         "name": "schema", "pkg": "./internal/rules/mechanisms", "test": "TestVerifC20Schema",
         "overlay": {"internal/rules/mechanisms/zz_verif_c20_schema_test.go": "c20/c20_schema_test.go"},
-        "eval_module": "Run.Eval_C20", "check_term": "check_schema",
+        "eval_module": "Run.Eval_C20", "check_term": "check_schema fixed_F1a fixed_F1b",
         "n_quick": 0, "n_thorough": 0, "findings": {1: "C20-F1"}, "env": {"VERIF_C20_PROBES": PROBES},
         "escalate": False,
     }],
